@@ -250,7 +250,9 @@ func saveESDTNFTToken(
 		return nil, err
 	}
 
-	if esdtData.Value.Cmp(zero) <= 0 {
+	// an entry without tokens is removed, unless it still carries the holder's properties (frozen flag)
+	isValueZero := esdtData.Value.Cmp(zero) == 0
+	if esdtData.Value.Cmp(zero) < 0 || (isValueZero && arePropertiesEmpty(esdtData.Properties)) {
 		return nil, acnt.AccountDataHandler().SaveKeyValue(esdtNFTTokenKey, nil)
 	}
 
